@@ -224,10 +224,12 @@ func (l *Log) Append(b []byte) error {
 		if err := l.Commit(); err != nil {
 			return err
 		}
+		verifPoint(l.dir, "log.rollover.committed")
 		s, err := openSegment(l.dir, l.LastIndex(), l.opt)
 		if err != nil {
 			return err
 		}
+		verifPoint(l.dir, "log.rollover.created")
 		connect(l.last, s)
 		l.last = s
 	}
@@ -270,6 +272,7 @@ func (l *Log) RemoveLTE(i uint64) error {
 			if err := s.closeAndRemove(); err != nil {
 				return err
 			}
+			verifPoint(l.dir, "log.removeLTE.each")
 		} else {
 			break
 		}
@@ -298,6 +301,7 @@ func (l *Log) RemoveGTE(i uint64) error {
 			if err := s.closeAndRemove(); err != nil {
 				return err
 			}
+			verifPoint(l.dir, "log.removeGTE.each")
 
 			if l.last == nil {
 				if i > 0 {
@@ -308,6 +312,7 @@ func (l *Log) RemoveGTE(i uint64) error {
 					return err
 				}
 				l.first, l.last = s, s
+				verifPoint(l.dir, "log.removeGTE.created")
 				break
 			}
 		} else if i > l.last.prevIndex {
@@ -329,6 +334,7 @@ func (l *Log) Reset(lastIndex uint64) error {
 		if err := l.first.closeAndRemove(); err != nil {
 			return err
 		}
+		verifPoint(l.dir, "log.reset.each")
 		l.first = l.first.next
 	}
 
@@ -337,6 +343,7 @@ func (l *Log) Reset(lastIndex uint64) error {
 		return err
 	}
 	l.first, l.last = s, s
+	verifPoint(l.dir, "log.reset.created")
 	return nil
 }
 
